@@ -6,6 +6,16 @@ ROOT = os.path.dirname(os.path.dirname(os.path.abspath(__file__)))
 
 # id -> (level category, technique, level text, level note, design ref)
 CHECKS = {
+    "C11": ("exploration",
+            "stateful property-based testing (proptest) of Channel over a real unix socket pair against a two-queue model with an independent frame encoder/decoder",
+            "Generated op sequences (peer writes of arbitrary sizes of a byte stream made of valid frames of generated sizes and injected malformed ones, channel readable/read_message/write_message/writable, peer reads) on a Channel with generated small buffer and maximum sizes and small socket buffers, in non-blocking mode (three owners: arbitrary caller, a mirror of the worker's read loop, the main process's extract_messages) and blocking mode; after every op the buffers are compared with the model, every message must be delivered exactly once, intact, in order, malformed frames yield errors without wedging the channel where the frame boundary is known, and capacities never exceed the ceiling. Bounded exploration.",
+            "Peer close / HUP handling and buffer_size > max_buffer_size configurations are not generated; the cargo-fuzz target for the byte stream is not built yet.",
+            "DESIGN.md §4 C11"),
+    "C19": ("exploration",
+            "stateful property-based testing (proptest) of the pure UdpManager with a virtual clock against a reference flow-table model",
+            "Generated interleavings of client datagrams, backend datagrams, backend resolutions (prompt, late, duplicate, stale), clock advances, timeouts (exact, late, and early as the timer wheel can fire), cap / affinity / PROXY-v2 / cluster reconfiguration, drain and mass teardown; after every call the drained outputs are compared with the model: one backend per flow for its whole life, replies only to the flow's client, payloads at most once and in order, PROXY-v2 prefix validated, admission only under the cap, each flow closed exactly once, accounting and timer consistent. Bounded exploration; the real UDP listener with sockets is not in the loop.",
+            "In-process tier only (the sans-io manager); the UDP shell (sockets, timer wheel) is represented by the harness calling the manager the way lib/src/udp.rs does.",
+            "DESIGN.md §4 C19"),
     "C16": ("exploration",
             "stateful property-based testing (proptest) of the worker's SessionManager against a multiset model of live sessions and per-(cluster, IP) slots",
             "Generated histories of accept / request-through-the-per-IP-gate / close / runtime limit changes / per-cluster overrides on the real SessionManager, called exactly as the mux router and tcp sessions call it; admission verdicts, connection count, accept hysteresis, per-IP verdict == (slots taken >= limit in force) without false refusals, and return to zero after all sessions closed. The live-worker part (gauges, buffers, slab entries, timers, storms above max_connections) is a wire-lab check not built yet.",
